@@ -19,6 +19,7 @@ RULE = (
     "(vf/sgr.py:shadow); no introducer -> verbatim and unformatted; only text + well-formed numeric CSI -> text is exactly s "
     "without the sequences. Non-trivial: >=1 introducer and >=1 ordinary character after it."
     ' Plus very long numeric parameters (5000 digits), 600 parameters in one sequence, 45-token mixes forcing the fallback path, text pieces up to 200 characters.'
+    " 'Tight' token mixes (bare introducers, sequences and single characters from the final-byte/intermediate ranges packed without gaps); a share of inputs as instances of a str subclass."
 )
 ASSUMPTIONS = [
     "'part of an escape sequence' is judged by a conservative scanner (introducer, char after ESC, run of 0x20-0x3F, one final byte)",
